@@ -24,6 +24,7 @@ package promisex
 import (
 	"context"
 	"errors"
+	"flag"
 	"fmt"
 	"math/rand/v2"
 	"os"
@@ -983,6 +984,74 @@ func runStress(w *hist.W, id string, ev []uint64, seed uint64) {
 	w.Flush()
 }
 
+// runSaturate: ONE very long history on one promise (thorough runs only).  After the winning SetResult the promise
+// receives 2^32 further SetResult calls; the calls number 2^8+1, 2^16+1 and 2^32+1 (counting the winner as number 1) are
+// ordinary recorded events, all others are made directly by the controller and ELIDED from the history: by the model's
+// theorem c11_setresult_on_resolved_is_noop a SetResult on a resolved promise returns false and changes nothing, so
+// leaving such events out of a history does not change what the model predicts for the rest.  An elided call that
+// returns true (or panics) ends the run with exit status 3, the history so far on disk.  What this reaches: a "done"
+// indication kept in a counter that wraps around (8, 16 or 32 bits wide).
+func runSaturate(t *testing.T, w *hist.W) {
+	synctest.Test(t, func(t *testing.T) {
+		s := newSys(w, false)
+		defer s.teardown()
+		w.Begin("saturate", []uint64{0})
+		var prev []uint64
+		step := func(ev []uint64) bool {
+			out, obs, ok := s.exec(ev)
+			if !ok {
+				w.Count("saturate.truncated", 1)
+				return false
+			}
+			s.count(out, obs, prev)
+			prev = obs
+			w.Step(out, obs)
+			w.Flush()
+			return true
+		}
+		if !step([]uint64{1}) || !step([]uint64{3, 0, 7, 0}) || !step([]uint64{5, 0, 0, 0, 0}) {
+			return
+		}
+		p := s.proms[0]
+		k := uint64(1) // calls made so far
+		for _, target := range []uint64{1 << 8, 1 << 16, 1 << 32} {
+			for k < target {
+				n := min(target-k, 1<<24)
+				w.Alive()
+				// n elided calls under one recover
+				done, won, pn := func() (done uint64, won bool, pn any) {
+					defer func() { pn = recover() }()
+					for ; done < n; done++ {
+						if p.SetResult(8, nil) {
+							return done, true, nil
+						}
+					}
+					return done, false, nil
+				}()
+				k += done
+				if won || pn != nil {
+					w.Count("saturate.elided_call_returned_true_or_panicked", 1)
+					fmt.Fprintf(os.Stderr, "saturate: SetResult call number %d on the resolved promise returned %v (panic: %v)\n", k+1, won, pn)
+					_ = w.Close()
+					os.Exit(3)
+				}
+			}
+			if !step([]uint64{3, 0, 8, 0}) {
+				return
+			}
+			k++
+			if a := s.c.Acts[len(s.c.Acts)-1]; a.Parked() {
+				// the call believes it has won and is at its gate: let it run on, so that the damage shows
+				step([]uint64{5, uint64(len(s.c.Acts) - 1), 0, 0, 0})
+			}
+		}
+		step([]uint64{4, 0, 0, 0, 0, 0, 0, 0})
+		w.Count("saturate.calls_in_millions", int(k>>20))
+	})
+}
+
+var saturate = flag.Bool("saturate", false, "run the saturation history whatever -n is")
+
 func TestPromise(t *testing.T) {
 	w, err := hist.Open("promise")
 	if err != nil {
@@ -1012,6 +1081,10 @@ func TestPromise(t *testing.T) {
 			corpusMotifs = append(corpusMotifs, h)
 		}
 		w.Count("corpus", 1)
+	}
+	if *hist.NHist >= 100000 || *saturate {
+		// thorough runs only (it takes 10 to 40 s)
+		runSaturate(t, w)
 	}
 	for h := 0; h < *hist.NHist; h++ {
 		w.Flush()
